@@ -1633,3 +1633,595 @@ Proof.
         -- left. exact H.
         -- right. right. right. exact H.
 Qed.
+(* ------------------------------------------------------------------ *)
+(* 9. where the writer can panic                                        *)
+(* ------------------------------------------------------------------ *)
+
+Definition addr_wf (a : addr) : bool :=
+  match a with AConst v => v <? 18446744073709551616 | ASym _ _ => true end.
+
+Definition cie_wf (c : cie) : bool :=
+  is_u16 (c_version c) && is_u8 (c_asize c) && is_u8 (c_caf c) && is_i8 (c_daf c) && is_u16 (c_ra c)
+  && match c_pers c with Some (e, a) => is_u8 e && addr_wf a | None => true end
+  && match c_lsda_enc c with Some e => is_u8 e | None => true end
+  && is_u8 (c_fde_enc c) && forallb cfi_wf (c_insns c).
+
+Definition fde_wf (f : fde) : bool :=
+  addr_wf (f_addr f) && is_u32 (f_len f)
+  && match f_lsda f with Some a => addr_wf a | None => true end
+  && forallb fde_insn_wf (f_insns f).
+
+(* the FDE's LSDA is present exactly when the CIE has an encoding for it (only checked, by a
+   debug_assert, when the CIE has an augmentation at all) *)
+Definition lsda_ok (c : cie) (f : fde) : bool :=
+  negb (has_augmentation c) || Bool.eqb (is_some (f_lsda f)) (is_some (c_lsda_enc c)).
+
+Lemma write_uleb_fuel_len : forall f v bs, write_uleb_fuel f v = Ok bs -> (length bs <= f)%nat.
+Proof.
+  induction f as [|f IH]; intros v bs H; cbn [write_uleb_fuel] in H; [discriminate|].
+  destruct (N.shiftr v 7 =? 0).
+  - injection H as <-. cbn [length]. lia.
+  - destruct (write_uleb_fuel f (N.shiftr v 7)) as [r| | |] eqn:E; try discriminate.
+    cbn [bind] in H. injection H as <-. cbn [length]. apply IH in E. lia.
+Qed.
+
+Lemma write_sleb_fuel_len : forall f v bs, write_sleb_fuel f v = Ok bs -> (length bs <= f)%nat.
+Proof.
+  induction f as [|f IH]; intros v bs H; cbn [write_sleb_fuel] in H; [discriminate|].
+  destruct ((Z.shiftr v 6 =? 0)%Z || (Z.shiftr v 6 =? -1)%Z).
+  - injection H as <-. cbn [length]. lia.
+  - destruct (write_sleb_fuel f (Z.shiftr (Z.shiftr v 6) 1)) as [r| | |] eqn:E; try discriminate.
+    cbn [bind] in H. injection H as <-. cbn [length]. apply IH in E. lia.
+Qed.
+
+Lemma write_uleb128_np v : v < 2 ^ 64 -> write_uleb128 v <> Panic.
+Proof. intros H. destruct (write_uleb128_spec v H) as (bs & E & _). congruence. Qed.
+Lemma write_sleb128_np v : (-9223372036854775808 <= v < 9223372036854775808)%Z -> write_sleb128 v <> Panic.
+Proof. intros H. destruct (write_sleb128_spec v H) as (bs & E & _). congruence. Qed.
+
+Lemma write_udata_np be v size : write_udata be v size <> Panic.
+Proof.
+  unfold write_udata.
+  repeat match goal with |- context [if ?c then _ else _] => destruct c end; discriminate.
+Qed.
+Lemma write_sdata_np be v size : write_sdata be v size <> Panic.
+Proof.
+  unfold write_sdata.
+  repeat match goal with |- context [if ?c then _ else _] => destruct c end; discriminate.
+Qed.
+
+Lemma write_udata_len_le be v size bs : write_udata be v size = Ok bs -> (length bs <= 8)%nat.
+Proof.
+  unfold write_udata.
+  repeat match goal with |- context [if ?c then _ else _] => destruct c end;
+    intros H; try discriminate; injection H as <-; rewrite enc_un_length; lia.
+Qed.
+Lemma write_sdata_len_le be v size bs : write_sdata be v size = Ok bs -> (length bs <= 8)%nat.
+Proof.
+  unfold write_sdata.
+  repeat match goal with |- context [if ?c then _ else _] => destruct c end;
+    intros H; try discriminate; injection H as <-; rewrite enc_un_length; lia.
+Qed.
+
+Lemma to_i64_range x : (-9223372036854775808 <= to_i64 x < 9223372036854775808)%Z.
+Proof.
+  unfold to_i64, to_signed, wrapN. change (2 ^ 64) with 18446744073709551616.
+  change (2 ^ (64 - 1)) with 9223372036854775808.
+  destruct (x mod 18446744073709551616 <? 9223372036854775808) eqn:E; lia.
+Qed.
+
+Lemma write_eh_pointer_data_np be val fmt size :
+  val < 2 ^ 64 -> write_eh_pointer_data be val fmt size <> Panic.
+Proof.
+  intros Hv. unfold write_eh_pointer_data.
+  repeat match goal with |- context [if ?c then _ else _] => destruct c end;
+    try apply write_udata_np; try apply write_sdata_np; try discriminate.
+  - apply write_uleb128_np. exact Hv.
+  - apply write_sleb128_np. apply to_i64_range.
+Qed.
+
+Lemma write_eh_pointer_data_len be val fmt size bs :
+  write_eh_pointer_data be val fmt size = Ok bs -> (length bs <= 10)%nat.
+Proof.
+  unfold write_eh_pointer_data.
+  repeat match goal with |- context [if ?c then _ else _] => destruct c end; intros H; try discriminate;
+    try (apply write_udata_len_le in H; lia); try (apply write_sdata_len_le in H; lia).
+  - apply write_uleb_fuel_len in H. exact H.
+  - apply write_sleb_fuel_len in H. exact H.
+Qed.
+
+Lemma wrap64_lt' x : wrap64 x < 2 ^ 64.
+Proof. apply wrap64_lt. Qed.
+
+Lemma write_eh_pointer_np be pos a e size : addr_wf a = true -> write_eh_pointer be pos a e size <> Panic.
+Proof.
+  intros Ha. unfold write_eh_pointer. destruct a as [v|s d]; [|discriminate].
+  cbn [addr_wf] in Ha.
+  destruct (pe_application e =? 0).
+  - cbn [bind]. apply write_eh_pointer_data_np. change (2 ^ 64) with 18446744073709551616. lia.
+  - destruct (pe_application e =? 16); [|discriminate].
+    cbn [bind]. apply write_eh_pointer_data_np. apply wrap64_lt'.
+Qed.
+
+Lemma write_eh_pointer_len be pos a e size bs :
+  write_eh_pointer be pos a e size = Ok bs -> (length bs <= 10)%nat.
+Proof.
+  unfold write_eh_pointer. destruct a as [v|s d]; [|discriminate].
+  destruct (pe_application e =? 0).
+  - cbn [bind]. apply write_eh_pointer_data_len.
+  - destruct (pe_application e =? 16); [|discriminate]. cbn [bind]. apply write_eh_pointer_data_len.
+Qed.
+
+Lemma write_address_np be a size : write_address be a size <> Panic.
+Proof. destruct a; cbn [write_address]; [apply write_udata_np|discriminate]. Qed.
+
+Lemma write_insn_np dbg daf i : cfi_wf i = true -> is_i8 daf = true -> write_insn dbg daf i <> Panic.
+Proof.
+  intros Hi Hd. destruct (write_insn_total dbg daf i Hi Hd) as [[bs E]|[E _]]; congruence.
+Qed.
+
+Lemma write_insns_np dbg daf : forall l, forallb cfi_wf l = true -> is_i8 daf = true -> write_insns dbg daf l <> Panic.
+Proof.
+  induction l as [|i r IH]; intros Hl Hd; cbn [write_insns]; [discriminate|].
+  cbn [forallb] in Hl. apply andb_true_iff in Hl. destruct Hl as [Hi Hr].
+  apply bind_not_panic; [apply write_insn_np; assumption|]. intros a _.
+  apply bind_not_panic; [apply IH; assumption|]. intros b _. discriminate.
+Qed.
+
+Lemma write_advance_loc_np dbg be caf prev off :
+  is_u8 caf = true -> is_u32 prev = true -> is_u32 off = true -> write_advance_loc dbg be caf prev off <> Panic.
+Proof.
+  intros H1 H2 H3. destruct (write_advance_loc_total dbg be caf prev off H1 H2 H3) as [E|[bs E]]; congruence.
+Qed.
+
+Lemma write_fde_insns_np dbg be caf daf : forall l prev,
+  forallb fde_insn_wf l = true -> is_u8 caf = true -> is_i8 daf = true -> is_u32 prev = true ->
+  write_fde_insns dbg be caf daf prev l <> Panic.
+Proof.
+  induction l as [|[off i] r IH]; intros prev Hl Hc Hd Hp; cbn [write_fde_insns]; [discriminate|].
+  cbn [forallb] in Hl. apply andb_true_iff in Hl. destruct Hl as [Hi Hr].
+  unfold fde_insn_wf in Hi. cbn [fst snd] in Hi. apply andb_true_iff in Hi. destruct Hi as [Hoff Hi].
+  apply bind_not_panic; [apply write_advance_loc_np; assumption|]. intros a _.
+  apply bind_not_panic; [apply write_insn_np; assumption|]. intros b _.
+  apply bind_not_panic; [apply IH; assumption|]. intros c _. discriminate.
+Qed.
+
+Lemma with_aug_len_np dbg be data : (length data < 128)%nat -> with_aug_len dbg be data <> Panic.
+Proof.
+  intros H. unfold with_aug_len, len.
+  destruct (dbg && (128 <=? N.of_nat (length data))) eqn:E; [lia|].
+  apply bind_not_panic; [apply write_udata_np|]. intros lb _. discriminate.
+Qed.
+
+Lemma write_initial_length_np fmt64 be l : write_initial_length fmt64 be l <> Panic.
+Proof.
+  unfold write_initial_length.
+  destruct (negb fmt64 && (4294967280 <=? l) && (l <=? 4294967295)); [discriminate|].
+  apply bind_not_panic; [apply write_udata_np|]. intros b _. discriminate.
+Qed.
+
+Lemma write_nop_np dbg L a : is_u8 a = true -> is_pow2 a = true -> 0 < L -> write_nop dbg L a <> Panic.
+Proof.
+  intros Hu Hp HL. unfold write_nop. unfold is_pow2 in Hp. apply andb_true_iff in Hp. destruct Hp as [Hp1 Hp2].
+  destruct (a =? 0) eqn:E0; [discriminate|].
+  rewrite Hp2. cbn [negb]. rewrite andb_false_r.
+  destruct (dbg && (L =? 0)) eqn:E; [lia|]. discriminate.
+Qed.
+
+Lemma close_entry_np dbg be fmt64 asize body :
+  is_u8 asize = true -> is_pow2 asize = true -> close_entry dbg be fmt64 asize body <> Panic.
+Proof.
+  intros Hu Hp. unfold close_entry.
+  apply bind_not_panic.
+  - apply write_nop_np; [assumption|assumption|]. destruct fmt64; cbn [word_size]; lia.
+  - intros pad _. apply bind_not_panic; [apply write_initial_length_np|]. intros il _. discriminate.
+Qed.
+
+Ltac split_wf H :=
+  repeat match type of H with _ && _ = true => let H2 := fresh "W" in apply andb_true_iff in H; destruct H as [H H2] end.
+
+Lemma cie_write_np dbg be eh pos c :
+  cie_wf c = true -> is_pow2 (c_asize c) = true -> cie_write dbg be eh pos c <> Panic.
+Proof.
+  intros Hwf Hp. unfold cie_wf in Hwf. split_wf Hwf.
+  rename W into Hinsns, W0 into Hfe, W1 into Hle, W2 into Hpe, W3 into Hra, W4 into Hdaf, W5 into Hcaf, W6 into Hasz.
+  unfold cie_write.
+  destruct (if eh then negb (c_version c =? 1)
+            else negb ((c_version c =? 1) || (c_version c =? 3) || (c_version c =? 4))); [discriminate|].
+  apply is_u8_iff in Hcaf. apply is_i8_iff in Hdaf. apply is_u16_iff in Hra.
+  apply bind_not_panic; [apply write_uleb128_np; change (2 ^ 64) with 18446744073709551616; lia|]. intros cafb _.
+  apply bind_not_panic; [apply write_sleb128_np; lia|]. intros dafb _.
+  apply bind_not_panic.
+  { destruct (c_version c =? 1).
+    - destruct (c_ra c <? 256); discriminate.
+    - apply write_uleb128_np. change (2 ^ 64) with 18446744073709551616. lia. }
+  intros rab _.
+  apply bind_not_panic.
+  { destruct (has_augmentation c); [|discriminate].
+    destruct (c_pers c) as [[e a]|] eqn:Ep.
+    - apply andb_true_iff in Hpe. destruct Hpe as [_ Ha].
+      apply bind_not_panic.
+      + apply bind_not_panic; [apply write_eh_pointer_np; exact Ha|]. intros pb _. discriminate.
+      + intros p Hpb. apply bind_ok_inv in Hpb. destruct Hpb as (pb & Hpb & Hp'). injection Hp' as <-.
+        apply write_eh_pointer_len in Hpb.
+        apply with_aug_len_np. rewrite !app_length. cbn [length].
+        destruct (c_lsda_enc c); destruct (negb (c_fde_enc c =? 0)); cbn [length]; lia.
+    - cbn [bind]. apply with_aug_len_np. rewrite !app_length.
+      destruct (c_lsda_enc c); destruct (negb (c_fde_enc c =? 0)); cbn [length]; lia. }
+  intros augdata _.
+  apply bind_not_panic; [apply write_insns_np; [exact Hinsns|apply is_i8_iff; exact Hdaf]|]. intros insns _.
+  apply close_entry_np; assumption.
+Qed.
+
+Lemma fde_write_np dbg be eh pos coff c f :
+  cie_wf c = true -> is_pow2 (c_asize c) = true -> fde_wf f = true ->
+  coff <= pos -> (dbg = true -> lsda_ok c f = true) ->
+  fde_write dbg be eh pos coff c f <> Panic.
+Proof.
+  intros Hwf Hp Hf Hcoff Hlsda. unfold cie_wf in Hwf. split_wf Hwf.
+  rename W into Hinsns, W0 into Hfe, W1 into Hle, W2 into Hpe, W3 into Hra, W4 into Hdaf, W5 into Hcaf, W6 into Hasz.
+  unfold fde_wf in Hf. split_wf Hf. rename W into Hfi, W0 into Hfl, W1 into Hflen.
+  unfold fde_write.
+  apply bind_not_panic.
+  { destruct eh; [|apply write_udata_np].
+    apply bind_not_panic; [|intros d _; apply write_udata_np].
+    rewrite chk_sub_le by (destruct (c_fmt64 c); cbn [ilen_size]; lia). discriminate. }
+  intros ptr _.
+  apply bind_not_panic.
+  { destruct (negb (c_fde_enc c =? 0)).
+    - apply bind_not_panic; [apply write_eh_pointer_np; exact Hf|]. intros a _.
+      apply bind_not_panic; [|intros l _; discriminate].
+      apply write_eh_pointer_data_np. apply is_u32_iff in Hflen. change (2 ^ 64) with 18446744073709551616. lia.
+    - apply bind_not_panic; [apply write_address_np|]. intros a _.
+      apply bind_not_panic; [apply write_udata_np|]. intros l _. discriminate. }
+  intros addrs _.
+  apply bind_not_panic.
+  { destruct (has_augmentation c) eqn:Ea; [|discriminate].
+    destruct (dbg && negb (Bool.eqb (is_some (f_lsda f)) (is_some (c_lsda_enc c)))) eqn:E.
+    - apply andb_true_iff in E. destruct E as [-> E]. specialize (Hlsda eq_refl).
+      unfold lsda_ok in Hlsda. rewrite Ea in Hlsda. cbn [negb orb] in Hlsda. rewrite Hlsda in E. discriminate.
+    - destruct (f_lsda f) as [a|]; [destruct (c_lsda_enc c) as [e|]|].
+      + apply bind_not_panic; [apply write_eh_pointer_np; exact Hfl|].
+        intros d Hd. apply write_eh_pointer_len in Hd. apply with_aug_len_np. lia.
+      + cbn [bind]. apply with_aug_len_np. cbn [length]. lia.
+      + cbn [bind]. apply with_aug_len_np. cbn [length]. lia. }
+  intros augdata _.
+  apply bind_not_panic.
+  { apply write_fde_insns_np; [exact Hfi|exact Hcaf|exact Hdaf|reflexivity]. }
+  intros insns _.
+  apply close_entry_np; assumption.
+Qed.
+
+(* the loop: offsets recorded so far never exceed the current position *)
+Definition offs_le (offs : list (option N)) (pos : N) : Prop :=
+  forall i o, nth_error offs i = Some (Some o) -> o <= pos.
+
+Lemma write_fdes_np dbg be eh cies : forall fdes offs pos,
+  Forall (fun c => cie_wf c = true /\ is_pow2 (c_asize c) = true) cies ->
+  Forall (fun p => fde_wf (snd p) = true /\
+                   exists c, nth_error cies (fst p) = Some c /\ (dbg = true -> lsda_ok c (snd p) = true)) fdes ->
+  length offs = length cies -> offs_le offs pos ->
+  write_fdes dbg be eh cies offs pos fdes <> Panic.
+Proof.
+  induction fdes as [|[idx f] rest IH]; intros offs pos Hc Hf Hlen Hle; cbn [write_fdes]; [discriminate|].
+  inversion Hf as [|x l Hx Hrest]; subst. cbn [fst snd] in Hx. destruct Hx as (Hfw & c & Hnth & Hls).
+  rewrite Hnth. cbn [unwrap bind].
+  assert (Hcw : cie_wf c = true /\ is_pow2 (c_asize c) = true).
+  { rewrite Forall_forall in Hc. apply Hc. eapply nth_error_In. exact Hnth. }
+  destruct Hcw as [Hcw Hcp].
+  assert (Hidx : (idx < length offs)%nat) by (rewrite Hlen; apply nth_error_Some; congruence).
+  destruct (nth_error offs idx) as [slot|] eqn:Eslot; [|apply nth_error_None in Eslot; lia].
+  cbn [unwrap bind].
+  destruct slot as [off|].
+  - cbn [bind]. rewrite len_nil, N.add_0_r.
+    assert (Hoff : off <= pos) by (eapply Hle; exact Eslot).
+    apply bind_not_panic.
+    + apply fde_write_np; try assumption.
+    + intros fb _. apply bind_not_panic; [|intros r _; discriminate].
+      apply IH; try assumption. intros i o Hio. specialize (Hle i o Hio). lia.
+  - apply bind_not_panic.
+    + apply bind_not_panic; [apply cie_write_np; assumption|]. intros bs _. discriminate.
+    + intros [[cb coff] offs'] Hcb.
+      apply bind_ok_inv in Hcb. destruct Hcb as (cb' & _ & Hcb). injection Hcb as <- <- <-.
+      apply bind_not_panic.
+      * apply fde_write_np; try assumption. lia.
+      * intros fb _. apply bind_not_panic; [|intros r _; discriminate].
+        apply IH; try assumption.
+        -- now rewrite set_nth_length.
+        -- intros i o Hio. rewrite nth_error_set_nth in Hio by exact Hidx.
+           destruct (Nat.eqb i idx).
+           ++ injection Hio as <-. lia.
+           ++ specialize (Hle i o Hio). lia.
+Qed.
+
+Lemma write_table_np dbg be eh pos t :
+  Forall (fun c => cie_wf c = true /\ is_pow2 (c_asize c) = true) (t_cies t) ->
+  Forall (fun p => fde_wf (snd p) = true /\
+                   exists c, nth_error (t_cies t) (fst p) = Some c /\ (dbg = true -> lsda_ok c (snd p) = true))
+         (t_fdes t) ->
+  write_table dbg be eh pos t <> Panic.
+Proof.
+  intros Hc Hf. unfold write_table. apply write_fdes_np; try assumption.
+  - apply repeat_length.
+  - intros i o Hio. exfalso.
+    destruct (Nat.lt_ge_cases i (length (t_cies t))) as [Hlt|Hge].
+    + rewrite nth_error_repeat_lt in Hio by exact Hlt. discriminate.
+    + assert (nth_error (repeat (@None N) (length (t_cies t))) i = None)
+        by (apply nth_error_None; rewrite repeat_length; exact Hge).
+      congruence.
+Qed.
+
+(* add_instruction panics only in a checked build and only for a decreasing offset *)
+Fixpoint nondecreasing (prev : N) (l : list (N * cfi)) : bool :=
+  match l with [] => true | (o, _) :: r => (prev <=? o) && nondecreasing o r end.
+
+Lemma fde_add_instructions_np dbg : forall l f,
+  (dbg = true -> nondecreasing (match rev (f_insns f) with (o, _) :: _ => o | [] => 0 end) l = true) ->
+  fde_add_instructions dbg f l <> Panic.
+Proof.
+  induction l as [|[o i] r IH]; intros f H; cbn [fde_add_instructions]; [discriminate|].
+  apply bind_not_panic.
+  - unfold fde_add_instruction.
+    destruct (dbg && (o <? match rev (f_insns f) with (o0, _) :: _ => o0 | [] => 0 end)) eqn:E; [|discriminate].
+    apply andb_true_iff in E. destruct E as [-> E]. specialize (H eq_refl). cbn [nondecreasing] in H. lia.
+  - intros f' Hf'. unfold fde_add_instruction in Hf'.
+    destruct (dbg && (o <? match rev (f_insns f) with (o0, _) :: _ => o0 | [] => 0 end)); [discriminate|].
+    injection Hf' as <-. apply IH. cbn [f_insns]. rewrite rev_app_distr. cbn [rev app].
+    intros Hd. specialize (H Hd). cbn [nondecreasing] in H. apply andb_true_iff in H. tauto.
+Qed.
+
+Fixpoint ops_sorted (ops : list bop) : bool :=
+  match ops with
+  | [] => true
+  | BAddCie _ :: r => ops_sorted r
+  | BAddFde _ f :: r => nondecreasing 0 (f_insns f) && ops_sorted r
+  end.
+
+Lemma build_np dbg : forall ops t ids, (dbg = true -> ops_sorted ops = true) -> build dbg t ids ops <> Panic.
+Proof.
+  induction ops as [|op r IH]; intros t ids H; cbn [build]; [discriminate|].
+  destruct op as [c|k f].
+  - destruct (add_cie t c) as [t' id]. apply IH. intros Hd. exact (H Hd).
+  - destruct (nth_error ids k) as [id|]; [|discriminate].
+    apply bind_not_panic.
+    + apply fde_add_instructions_np. cbn [f_insns rev]. intros Hd. specialize (H Hd).
+      cbn [ops_sorted] in H. apply andb_true_iff in H. tauto.
+    + intros f' _. apply IH. intros Hd. specialize (H Hd). cbn [ops_sorted] in H. apply andb_true_iff in H. tauto.
+Qed.
+(* ------------------------------------------------------------------ *)
+(* 10. the statements of Properties/C14.v                               *)
+(* ------------------------------------------------------------------ *)
+
+Lemma factoring_exact_data : forall (dbg : bool) (o f : Z),
+  is_i32 o = true -> is_i8 f = true ->
+  (forall q, factored_data_offset dbg o f = Ok q <-> (f <> 0 /\ q * f = o /\ is_i32 q = true)%Z) /\
+  (factored_data_offset dbg o f = Err WInvalidFrameDataOffset \/
+   exists q, factored_data_offset dbg o f = Ok q).
+Proof.
+  intros dbg o f Ho Hf. split.
+  - intros q. apply factored_data_offset_ok; assumption.
+  - apply factored_data_offset_total; assumption.
+Qed.
+
+Lemma factoring_exact_code_pack : forall (dbg : bool) (prev off factor : N),
+  is_u32 prev = true -> is_u32 off = true -> is_u8 factor = true ->
+  (forall q, factored_code_delta dbg prev off factor = Ok q <->
+             prev <= off /\ factor <> 0 /\ q * factor = off - prev) /\
+  (factored_code_delta dbg prev off factor = Err WInvalidFrameCodeOffset \/
+   exists q, factored_code_delta dbg prev off factor = Ok q) /\
+  (off < prev -> factored_code_delta dbg prev off factor = Err WInvalidFrameCodeOffset).
+Proof.
+  intros dbg prev off factor Hp Ho Hf. split; [|split].
+  - intros q. apply factored_code_delta_ok; assumption.
+  - apply factored_code_delta_total; assumption.
+  - apply factored_code_delta_decreasing.
+Qed.
+
+Lemma advance_loc_forms_pack : forall (dbg be : bool) (caf prev off : N),
+  is_u8 caf = true -> is_u32 prev = true -> is_u32 off = true ->
+  (write_advance_loc dbg be caf prev off = Err WInvalidFrameCodeOffset \/
+   exists bs, write_advance_loc dbg be caf prev off = Ok bs) /\
+  (forall bs, write_advance_loc dbg be caf prev off = Ok bs ->
+     (off = prev /\ bs = []) \/
+     (exists delta, prev < off /\ delta * caf = off - prev /\ bs = adv_enc be delta /\
+                    forall rest, decode1 be (bs ++ rest) = Some (DAdvance delta, rest))) /\
+  (off < prev -> write_advance_loc dbg be caf prev off = Err WInvalidFrameCodeOffset).
+Proof.
+  intros dbg be caf prev off Hc Hp Ho. split; [|split].
+  - apply write_advance_loc_total; assumption.
+  - intros bs H. destruct (write_advance_loc_ok dbg be caf prev off bs Hc Hp Ho H)
+      as [?|(delta & H1 & H2 & H3 & ->)]; [left; assumption|].
+    right. exists delta. repeat split; try assumption.
+    intros rest. apply decode1_adv_enc. exact H3.
+  - intros Hlt. rewrite (write_advance_loc_eq dbg be caf prev off Hc Hp Ho).
+    destruct (off =? prev) eqn:E; [lia|]. destruct (off <? prev) eqn:E2; [reflexivity|lia].
+Qed.
+
+Lemma adv_enc_forms : forall (be : bool) (delta : N),
+  (delta < 64 -> adv_enc be delta = [n2b (64 + delta)]) /\
+  (64 <= delta < 256 -> adv_enc be delta = [x02; n2b delta]) /\
+  (256 <= delta < 65536 -> adv_enc be delta = x03 :: enc_num 2 be delta) /\
+  (65536 <= delta -> adv_enc be delta = x04 :: enc_num 4 be delta).
+Proof.
+  intros be delta. unfold adv_enc. repeat split; intros H.
+  - destruct (delta <? 64) eqn:E; [reflexivity|lia].
+  - destruct (delta <? 64) eqn:E; [lia|]. destruct (delta <? 256) eqn:E2; [reflexivity|lia].
+  - destruct (delta <? 64) eqn:E; [lia|]. destruct (delta <? 256) eqn:E2; [lia|].
+    destruct (delta <? 65536) eqn:E3; [reflexivity|lia].
+  - destruct (delta <? 64) eqn:E; [lia|]. destruct (delta <? 256) eqn:E2; [lia|].
+    destruct (delta <? 65536) eqn:E3; [lia|reflexivity].
+Qed.
+
+Lemma insn_write_read_pack : forall (dbg be : bool) (caf : N) (daf : Z) (i : cfi),
+  cfi_wf i = true -> is_i8 daf = true ->
+  (forall bs, write_insn dbg daf i = Ok bs ->
+     exists d, decode_all be bs = Some [d] /\
+               (forall rest, decode1 be (bs ++ rest) = Some (d, rest)) /\
+               sem caf daf d = MInsn i) /\
+  ((exists bs, write_insn dbg daf i = Ok bs) \/
+   (write_insn dbg daf i = Err WInvalidFrameDataOffset /\
+    exists o, factored_operand i = Some o /\ ~ factorable daf o)) /\
+  (forall bs o, write_insn dbg daf i = Ok bs -> factored_operand i = Some o -> factorable daf o).
+Proof.
+  intros dbg be caf daf i Hi Hd. split; [|split].
+  - intros bs H. destruct (write_insn_decodes dbg be caf daf i bs Hi Hd H) as (Hne & d & Hdec & Hs).
+    exists d. split; [apply decode_all_single; assumption|]. split; assumption.
+  - apply write_insn_total; assumption.
+  - intros bs o H Ho. eapply write_insn_ok_factorable; eassumption.
+Qed.
+
+Lemma fde_program_read_pack : forall (dbg be : bool) (caf : N) (daf : Z) (l : list (N * cfi)) bs,
+  forallb fde_insn_wf l = true -> is_u8 caf = true -> is_i8 daf = true ->
+  write_fde_insns dbg be caf daf 0 l = Ok bs ->
+  exists ds, decode_all be bs = Some ds /\ locate 0 (map (sem caf daf) ds) = l.
+Proof.
+  intros dbg be caf daf l bs Hl Hc Hd H.
+  apply (write_fde_insns_decodes dbg be caf daf l 0 bs Hl Hc Hd); [reflexivity|exact H].
+Qed.
+
+Lemma cie_program_read_pack : forall (dbg be : bool) (caf : N) (daf : Z) (l : list cfi) bs,
+  forallb cfi_wf l = true -> is_i8 daf = true ->
+  write_insns dbg daf l = Ok bs ->
+  exists ds, decode_all be bs = Some ds /\ map (sem caf daf) ds = map MInsn l.
+Proof. intros. eapply write_insns_decodes; eassumption. Qed.
+
+Lemma len_app a b : len (a ++ b) = len a + len b.
+Proof. unfold len. rewrite app_length. lia. Qed.
+
+Lemma cie_wf_parts c : cie_wf c = true ->
+  is_u8 (c_asize c) = true /\ is_u8 (c_caf c) = true /\ is_i8 (c_daf c) = true /\ forallb cfi_wf (c_insns c) = true.
+Proof. intros H. unfold cie_wf in H. split_wf H. auto. Qed.
+
+Lemma entry_layout_cie_pack : forall (dbg be eh : bool) (pos : N) (c : cie) bs,
+  cie_wf c = true -> is_pow2 (c_asize c) = true ->
+  cie_write dbg be eh pos c = Ok bs ->
+  exists il hdr area,
+    bs = il ++ hdr ++ area /\
+    write_initial_length (c_fmt64 c) be (len (hdr ++ area)) = Ok il /\ len il = ilen_size (c_fmt64 c) /\
+    (word_size (c_fmt64 c) + len (hdr ++ area)) mod c_asize c = 0 /\
+    ((c_fmt64 c = false \/ c_asize c <= 4) -> len bs mod c_asize c = 0) /\
+    exists ds n, decode_all be area = Some (ds ++ repeat DNop n) /\ N.of_nat n < c_asize c /\
+                 map (sem (c_caf c) (c_daf c)) ds = map MInsn (c_insns c).
+Proof.
+  intros dbg be eh pos c bs Hwf Hp H.
+  destruct (cie_wf_parts c Hwf) as (Hu & Hcaf & Hdaf & Hins).
+  destruct (cie_write_layout dbg be eh pos c bs Hu Hp H)
+    as (il & hdr & insns & pad & -> & Hil & Hlen & Hw & Hnop & Hpad & Hmod).
+  exists il, hdr, (insns ++ pad). repeat split; try assumption.
+  - intros Hk. rewrite len_app, Hlen. apply total_size_aligned; assumption.
+  - destruct (write_insns_decodes_ext dbg be (c_caf c) (c_daf c) (c_insns c) insns Hins Hdaf Hw) as (ds & Hds & Hm).
+    exists ds, (length pad). split; [|split; [exact Hpad|exact Hm]].
+    apply Hds. apply all_nop_decodes. exact Hnop.
+Qed.
+
+Lemma fde_wf_parts f : fde_wf f = true -> forallb fde_insn_wf (f_insns f) = true.
+Proof. intros H. unfold fde_wf in H. split_wf H. auto. Qed.
+
+Lemma entry_layout_fde_pack : forall (dbg be eh : bool) (pos coff : N) (c : cie) (f : fde) bs,
+  cie_wf c = true -> is_pow2 (c_asize c) = true -> fde_wf f = true ->
+  fde_write dbg be eh pos coff c f = Ok bs ->
+  exists il hdr area,
+    bs = il ++ hdr ++ area /\
+    write_initial_length (c_fmt64 c) be (len (hdr ++ area)) = Ok il /\ len il = ilen_size (c_fmt64 c) /\
+    (word_size (c_fmt64 c) + len (hdr ++ area)) mod c_asize c = 0 /\
+    ((c_fmt64 c = false \/ c_asize c <= 4) -> len bs mod c_asize c = 0) /\
+    exists ds n, decode_all be area = Some (ds ++ repeat DNop n) /\ N.of_nat n < c_asize c /\
+                 locate 0 (map (sem (c_caf c) (c_daf c)) (ds ++ repeat DNop n)) = f_insns f.
+Proof.
+  intros dbg be eh pos coff c f bs Hwf Hp Hfw H.
+  destruct (cie_wf_parts c Hwf) as (Hu & Hcaf & Hdaf & _).
+  pose proof (fde_wf_parts f Hfw) as Hins.
+  destruct (fde_write_layout dbg be eh pos coff c f bs Hu Hp H)
+    as (il & hdr & insns & pad & -> & Hil & Hlen & Hw & Hnop & Hpad & Hmod).
+  exists il, hdr, (insns ++ pad). repeat split; try assumption.
+  - intros Hk. rewrite len_app, Hlen. apply total_size_aligned; assumption.
+  - destruct (write_fde_insns_decodes_ext dbg be (c_caf c) (c_daf c) (f_insns f) 0 insns Hins Hcaf Hdaf eq_refl Hw)
+      as (ds & Hds & Hm).
+    exists ds, (length pad). split; [|split; [exact Hpad|]].
+    + apply Hds. apply all_nop_decodes. exact Hnop.
+    + rewrite map_app, locate_nops. exact Hm.
+Qed.
+
+(* in the 64-bit format with an address size of 8 or more the entry size is 4 modulo the address size *)
+Lemma entry_layout_dwarf64_pack : forall (dbg be eh : bool) (pos : N) (c : cie) bs,
+  cie_wf c = true -> is_pow2 (c_asize c) = true -> c_fmt64 c = true -> 8 <= c_asize c ->
+  cie_write dbg be eh pos c = Ok bs -> len bs mod c_asize c = 4.
+Proof.
+  intros dbg be eh pos c bs Hwf Hp Hf Ha H.
+  destruct (cie_wf_parts c Hwf) as (Hu & _).
+  destruct (cie_write_layout dbg be eh pos c bs Hu Hp H)
+    as (il & hdr & insns & pad & -> & Hil & Hlen & Hw & Hnop & Hpad & Hmod).
+  rewrite Hf in *. rewrite len_app, Hlen. apply total_size_misaligned; assumption.
+Qed.
+
+(* per-tile read-back: every tile of a written table is a well-formed entry whose instruction area decodes
+   to the instructions of that CIE / to the instructions of that FDE at their code offsets *)
+Definition tile_reads_back (be : bool) (cies : list cie) (fdes : list (nat * fde)) (ch : item * list byte) : Prop :=
+  match ch with
+  | (ICie idx, b) =>
+      exists c il hdr area ds n,
+        nth_error cies idx = Some c /\ b = il ++ hdr ++ area /\ len il = ilen_size (c_fmt64 c) /\
+        decode_all be area = Some (ds ++ repeat DNop n) /\ N.of_nat n < c_asize c /\
+        map (sem (c_caf c) (c_daf c)) ds = map MInsn (c_insns c)
+  | (IFde k, b) =>
+      exists idx f c il hdr area ds n,
+        nth_error fdes k = Some (idx, f) /\ nth_error cies idx = Some c /\
+        b = il ++ hdr ++ area /\ len il = ilen_size (c_fmt64 c) /\
+        decode_all be area = Some (ds ++ repeat DNop n) /\ N.of_nat n < c_asize c /\
+        locate 0 (map (sem (c_caf c) (c_daf c)) (ds ++ repeat DNop n)) = f_insns f
+  end.
+
+Lemma well_tiled_reads_back dbg be eh cies fdes :
+  Forall (fun c => cie_wf c = true /\ is_pow2 (c_asize c) = true) cies ->
+  Forall (fun p => fde_wf (snd p) = true) fdes ->
+  forall chunks pos placed, well_tiled dbg be eh cies fdes pos placed chunks ->
+  Forall (tile_reads_back be cies fdes) chunks.
+Proof.
+  intros Hc Hf. induction chunks as [|[it b] r IH]; intros pos placed H; [constructor|].
+  destruct it as [idx|k]; cbn [well_tiled] in H; destruct H as [H Hr]; constructor; try (eapply IH; exact Hr).
+  - destruct H as (c & Hn & Hw).
+    assert (Hcw : cie_wf c = true /\ is_pow2 (c_asize c) = true).
+    { rewrite Forall_forall in Hc. apply Hc. eapply nth_error_In. exact Hn. }
+    destruct Hcw as [Hcw Hcp].
+    destruct (entry_layout_cie_pack dbg be eh pos c b Hcw Hcp Hw)
+      as (il & hdr & area & -> & _ & Hlen & _ & _ & ds & n & Hd & Hn' & Hm).
+    cbn [tile_reads_back]. exists c, il, hdr, area, ds, n. auto 10.
+  - destruct H as (idx & f & c & coff & Hk & Hn & _ & Hw).
+    assert (Hcw : cie_wf c = true /\ is_pow2 (c_asize c) = true).
+    { rewrite Forall_forall in Hc. apply Hc. eapply nth_error_In. exact Hn. }
+    destruct Hcw as [Hcw Hcp].
+    assert (Hfw : fde_wf f = true).
+    { rewrite Forall_forall in Hf. apply (Hf (idx, f)). eapply nth_error_In. exact Hk. }
+    destruct (entry_layout_fde_pack dbg be eh pos coff c f b Hcw Hcp Hfw Hw)
+      as (il & hdr & area & -> & _ & Hlen & _ & _ & ds & n & Hd & Hn' & Hm).
+    cbn [tile_reads_back]. exists idx, f, c, il, hdr, area, ds, n. auto 12.
+Qed.
+
+Lemma table_roundtrip_partial_pack : forall (dbg be eh : bool) (pos : N) (t : ftable) bs,
+  Forall (fun c => cie_wf c = true /\ is_pow2 (c_asize c) = true) (t_cies t) ->
+  Forall (fun p => fde_wf (snd p) = true) (t_fdes t) ->
+  write_table dbg be eh pos t = Ok bs ->
+  exists chunks,
+    map fst chunks = plan [] 0 (map fst (t_fdes t)) /\
+    bs = concat (map snd chunks) /\
+    well_tiled dbg be eh (t_cies t) (t_fdes t) pos [] chunks /\
+    Forall (tile_reads_back be (t_cies t) (t_fdes t)) chunks.
+Proof.
+  intros dbg be eh pos t bs Hc Hf H.
+  destruct (write_table_tiled dbg be eh pos t bs H) as (chunks & Hp & Hb & Ht).
+  exists chunks. repeat split; try assumption.
+  eapply well_tiled_reads_back; eassumption.
+Qed.
+
+Lemma plan_properties : forall (refs : list nat),
+  fde_items (plan [] 0 refs) = seq 0 (length refs) /\
+  NoDup (cie_items (plan [] 0 refs)) /\
+  (forall idx, In idx (cie_items (plan [] 0 refs)) <-> In idx refs) /\
+  (forall a j b idx, plan [] 0 refs = a ++ IFde j :: b -> nth_error refs j = Some idx -> In (ICie idx) a).
+Proof.
+  intros refs. split; [apply plan_fdes|]. destruct (plan_cies refs [] 0) as [Hnd Hin].
+  split; [exact Hnd|]. split.
+  - intros idx. rewrite Hin. cbn [In]. tauto.
+  - intros a j b idx Hp Hn.
+    destruct (plan_cie_before_fde refs [] 0 a j b idx Hp) as [[]|H]; [now rewrite Nat.sub_0_r|lia|exact H].
+Qed.
